@@ -67,25 +67,6 @@ pub fn vx_emit_dead_letter(actor_id: u64, actor_type: &'static str, message_type
         same_ambient(*old(w), *final(w)),
 { }
 
-// ---------------------------------------------------------------- NOT UNDER CONTRACT (listed in the evidence)
-impl<T: Actor> ActorRef<T> {
-    /// std::thread::spawn + nested runtime + std mpsc: outside Verus.  Only the fact of the call is logged.
-    #[verifier::external_body]
-    pub fn blocking_tell_with_timeout_impl<M>(&self, msg: M, timeout: Duration, w: &mut World) -> (r: Result<()>)
-        where M: Send + 'static, T: Message<M>,
-        ensures
-            final(w).log() == old(w).log().push(Eff::Opaque(OpaqueTag::BlockingTellTimeout { pid: msg_id(msg), d: timeout, chan: self.mbx_chan() })),
-            same_ambient(*old(w), *final(w)),
-    { unimplemented!() }
-    #[verifier::external_body]
-    pub fn blocking_ask_with_timeout_impl<M>(&self, msg: M, timeout: Duration, w: &mut World) -> (r: Result<T::Reply>)
-        where T: Message<M>, M: Send + 'static, T::Reply: Send + 'static,
-        ensures
-            final(w).log() == old(w).log().push(Eff::Opaque(OpaqueTag::BlockingAskTimeout { pid: msg_id(msg), d: timeout, chan: self.mbx_chan() })),
-            same_ambient(*old(w), *final(w)),
-    { unimplemented!() }
-}
-
 // ---------------------------------------------------------------- R10 dispatchers: clone_boxed on trait objects
 // (dynamic dispatch reaches the blanket impl for ActorRef<T> / ActorWeak<T>, whose lifted body is verified against the
 // same clause: r.target() == this.target())
